@@ -237,7 +237,14 @@ fn try_to_find_node_by_xml_name_in_xml_doc<'n>(
                 }
 
                 doc.resolving.push(xml_name.to_string());
+                // the definition is read under the target namespace of its own schema, which is not always the one of the
+                // schema that refers to it; afterwards the referring schema's namespace is the current one again
+                let referring = doc.current_target_namespace.clone();
+                if let Some(target_namespace) = schema.attribute("targetNamespace") {
+                    doc.switch_to_target_namespace(target_namespace);
+                }
                 let rust_node = RustNode::try_from_node(node, doc);
+                doc.current_target_namespace = referring;
                 doc.resolving.pop();
                 return rust_node;
             }
